@@ -880,7 +880,7 @@ func main() {
 	}
 	nseq, nops := 5000, 30
 	if os.Getenv("VERIF_TIER") == "thorough" {
-		nseq, nops = 60000, 45
+		nseq, nops = 30000, 45
 	}
 	if v := os.Getenv("VERIF_NSEQ"); v != "" {
 		nseq, _ = strconv.Atoi(v)
